@@ -2755,7 +2755,12 @@ static unsigned long long stringToULLbounded(
     std::size_t maxlen = std::string::npos
     )
 {
-    const std::string sub = s.substr(pos, maxlen);
+    // take the digits of the base only: strtoull also accepts leading white space, a sign and a "0x" prefix
+    std::size_t len = 0;
+    while (len < maxlen && pos + len < s.size() &&
+           (base == 8 ? (s[pos + len] >= '0' && s[pos + len] <= '7') : (std::isxdigit(static_cast<unsigned char>(s[pos + len])) != 0)))
+        ++len;
+    const std::string sub = s.substr(pos, len);
     const char * const start = sub.c_str();
     char* end;
     const unsigned long long value = std::strtoull(start, &end, base);
